@@ -86,8 +86,8 @@ Covered(e, v, t) == \A u \in Threads : u = t \/ e[u] <= v.vc[u]
 (* ---------------------------------------------------------------- init *)
 InitOb(p) ==
   LET Q == Progs[p] IN
-  [ mtx  |-> [m \in Q.mtxs  |-> [owner |-> NoThread, view |-> BotFor(p)]],
-    rw   |-> [l \in Q.rws   |-> [writer |-> NoThread, readers |-> {}, view |-> BotFor(p)]],
+  [ mtx  |-> [m \in Q.mtxs  |-> [owner |-> NoThread, view |-> BotFor(p), val |-> 0]],
+    rw   |-> [l \in Q.rws   |-> [writer |-> NoThread, readers |-> {}, view |-> BotFor(p), val |-> 0]],
     cvq  |-> [c \in Q.cvs   |-> <<>>],
     ntf  |-> [n \in Q.ntfs  |-> [flag |-> FALSE, view |-> BotFor(p), spurred |-> FALSE]],
     tok  |-> [t \in 1..Len(Q.threads) |-> [set |-> FALSE, view |-> BotFor(p)]],
@@ -377,8 +377,19 @@ TryLock(t, ins, me) ==
 Unlock(t, ins, me) ==
   LET m == ins.o IN
   /\ ob.mtx[m].owner = t
-  /\ ob' = [ob EXCEPT !.mtx[m] = [owner |-> NoThread, view |-> JoinV(@.view, me.cur)]]
+  /\ ob' = [ob EXCEPT !.mtx[m].owner = NoThread, !.mtx[m].view = JoinV(@, me.cur)]
   /\ Plain(t, me) /\ NoRet /\ UNCHANGED st
+
+\* the value protected by the mutex: written / read through the guard, or through get_mut / into_inner
+MSet(t, ins, me) ==
+  /\ ob.mtx[ins.o].owner = t
+  /\ ob' = [ob EXCEPT !.mtx[ins.o].val = ins.v]
+  /\ Plain(t, me) /\ NoRet /\ UNCHANGED st
+MGet(t, ins, me) ==
+  /\ ob.mtx[ins.o].owner = t
+  /\ Plain(t, me) /\ Ret(t, ob.mtx[ins.o].val) /\ UNCHANGED <<st, ob>>
+\* Mutex::get_mut / into_inner: exclusive access by construction (&mut self / self), no locking
+MInner(t, ins, me) == Plain(t, me) /\ Ret(t, ob.mtx[ins.o].val) /\ UNCHANGED <<st, ob>>
 
 (* --------------------------------------------------------------- rwlock *)
 CanRead(l)  == ob.rw[l].writer = NoThread
@@ -417,6 +428,15 @@ RwUnlockW(t, ins, me) ==
   /\ ob' = [ob EXCEPT !.rw[l].writer = NoThread, !.rw[l].view = JoinV(@, me.cur)]
   /\ Plain(t, me) /\ NoRet /\ UNCHANGED st
 
+RwSet(t, ins, me) ==
+  /\ ob.rw[ins.o].writer = t
+  /\ ob' = [ob EXCEPT !.rw[ins.o].val = ins.v]
+  /\ Plain(t, me) /\ NoRet /\ UNCHANGED st
+RwGet(t, ins, me) ==
+  /\ ob.rw[ins.o].writer = t \/ t \in ob.rw[ins.o].readers
+  /\ Plain(t, me) /\ Ret(t, ob.rw[ins.o].val) /\ UNCHANGED <<st, ob>>
+RwInner(t, ins, me) == Plain(t, me) /\ Ret(t, ob.rw[ins.o].val) /\ UNCHANGED <<st, ob>>
+
 (* -------------------------------------------------------------- condvar *)
 \* Condvar::wait(guard of mutex o2) is three steps:
 \*   sub = ""        : enqueue on the condvar and release the mutex
@@ -427,7 +447,7 @@ CvWaitEnq(t, ins, me) ==
   /\ sub[t] = ""
   /\ ob.mtx[m].owner = t
   /\ ob' = [ob EXCEPT !.cvq[c] = Append(@, t),
-                      !.mtx[m] = [owner |-> NoThread, view |-> JoinV(@.view, me.cur)]]
+                      !.mtx[m].owner = NoThread, !.mtx[m].view = JoinV(@, me.cur)]
   /\ sub' = [sub EXCEPT ![t] = "cvq"]
   /\ SetMe(t, me) /\ NoRet /\ NoRace /\ UnchMem /\ UnchRace
   /\ UNCHANGED <<pc, scv, st>>
@@ -755,6 +775,12 @@ Do(t, ins, me) ==
     [] ins.op = "lock"     -> Lock(t, ins, me)
     [] ins.op = "trylock"  -> TryLock(t, ins, me)
     [] ins.op = "unlock"   -> Unlock(t, ins, me)
+    [] ins.op = "mset"     -> MSet(t, ins, me)
+    [] ins.op = "mget"     -> MGet(t, ins, me)
+    [] ins.op \in {"mgetmut", "minto"} -> MInner(t, ins, me)
+    [] ins.op = "rwset"    -> RwSet(t, ins, me)
+    [] ins.op = "rwget"    -> RwGet(t, ins, me)
+    [] ins.op \in {"rwgetmut", "rwinto"} -> RwInner(t, ins, me)
     [] ins.op = "read"     -> RwRead(t, ins, me)
     [] ins.op = "write"    -> RwWrite(t, ins, me)
     [] ins.op = "tryread"  -> RwTryRead(t, ins, me)
